@@ -166,7 +166,14 @@ func depsOf(name string, deps packageDeclsDeps) []*ast.Identifier {
 
 func checkDepsPath(path []*ast.Identifier, deps packageDeclsDeps) []*ast.Identifier {
 	last := path[len(path)-1]
-	for _, dep := range depsOf(last.Name, deps) {
+	// The dependencies of a declaration are looked up by its identifier; only
+	// those of a use are looked up by name, because several declarations can
+	// share a name: the blank identifier.
+	ds, ok := deps[last]
+	if !ok {
+		ds = depsOf(last.Name, deps)
+	}
+	for _, dep := range ds {
 		for _, p := range path {
 			if p.Name == dep.Name {
 				return append(path, dep)
